@@ -561,6 +561,12 @@ func (h *httpServerHandler) handleGet(ctx context.Context, w http.ResponseWriter
 		return
 	}
 
+	// A listening stream belongs to a session: without session management there is none to attach it to
+	if !h.enableSession || h.sessionManager == nil {
+		http.Error(w, "GET method not supported without sessions", http.StatusMethodNotAllowed)
+		return
+	}
+
 	// Check if there's a session ID
 	sessionID := r.Header.Get(httputil.SessionIDHeader)
 	if sessionID == "" {
